@@ -61,6 +61,54 @@ def first_match_kind_witness(rules, L: rx.NFA, want_kind: str, must_contain: str
     return None
 
 
+
+def _pred_language(t: ast.AST, text: str) -> "rx.NFA | None":
+    """Language of the strings T for which the predicate `t` (over the text expression `text`) is true."""
+    tt = unparse(t)
+    if tt in (f"'.' in {text}", f'"." in {text}'):
+        return rx.from_regex(r"[^.]*\.(?:.|\n)*")
+    if tt == f"{text}.isdigit()" or tt == f"{text}.isdecimal()":
+        return rx.from_regex(r"[0-9]+")
+    m = re.fullmatch(rf"{re.escape(text)}\.lstrip\('([^']*)'\)\.isdigit\(\)", tt)
+    if m:
+        return rx.from_regex("[" + re.escape(m.group(1)) + "]*[0-9]+")
+    return None
+
+
+def _int_branch(reader) -> str | None:
+    """The reader converts a NUMBER token with int() exactly for the texts str(int) can produce and with float() for
+    every NUMBER text containing '.'.  Decided on the languages of the branch conditions.  None = holds."""
+    fn = reader.node
+    ints = [c for c in calls_in(fn) if isinstance(c.func, ast.Name) and c.func.id == "int" and len(c.args) == 1]
+    if not ints:
+        return "no int() conversion of the NUMBER text"
+    PYI = rx.from_regex(rx.PY_INT)
+    DOTTED = rx.from_regex(r"[-+]?[0-9]+\.[0-9]*(?:[eE][-+]?[0-9]+)?")
+    for c in ints:
+        text = unparse(c.args[0])
+        conds = []
+        for t, pol in guard_facts(fn, c):
+            if text not in unparse(t):
+                continue
+            L = _pred_language(t, text)
+            if L is None:
+                if "kind" in unparse(t) or "isinstance" in unparse(t):
+                    continue
+                raise AnalysisError(f"{reader.fq}: condition `{unparse(t)}` of the int() branch is not a recognised text predicate")
+            conds.append((L, pol, unparse(t)))
+        if not conds:
+            return f"`{unparse(c)}` is not guarded by a test that excludes float texts"
+        # every printed int must satisfy all conditions
+        for L, pol, tt in conds:
+            wit = rx.included(PYI, L) if pol else rx.intersect_witness(PYI, L)
+            if wit is not None:
+                return f"the int `{rx.show(wit)}` does not take the int() branch (condition `{tt}` is {'false' if pol else 'true'} for it)"
+        # no dotted text may satisfy all of them
+        if not any((rx.intersect_witness(DOTTED, L) is None) if pol else (rx.included(DOTTED, L) is None) for L, pol, tt in conds):
+            return "a NUMBER text containing '.' can take the int() branch"
+    return None
+
+
 def check_writer_forms(idx: Index, rep: Report) -> None:
     r = rep.rule("C18.R1", "each value type is printed in a form that the first-match lexer reads back as one token which the value parser maps to the same Python type", floor=4)
     rules = lexer_rules(idx)
@@ -89,10 +137,11 @@ def check_writer_forms(idx: Index, rep: Report) -> None:
     body = cases.get("int")
     if body and unparse(body[-1]) == f"return str({arg})":
         w = first_match_kind_witness(rules, rx.from_regex(rx.PY_INT), "NUMBER")
-        if w is None and "if '.' in span.text:\n                return float(span.text)" in rt or (w is None and "'.' in span.text" in rt and "int(span.text)" in rt):
-            r.ok("int", f"{f.loc} int -> -?[0-9]+ -> NUMBER without '.' -> int")
+        why = _int_branch(reader) if w is None else f"`{w[0]}` is lexed as {w[1]}"
+        if why is None:
+            r.ok("int", f"{f.loc} int -> -?[0-9]+ -> NUMBER -> int() for every printed int, float() for every text with '.'")
         else:
-            r.fail("int", Finding("C18.R1", f.fq, "int-form", f"an int printed with str() is not read back as an int (`{w}`)", f.loc))
+            r.fail("int", Finding("C18.R1", f.fq, "int-form", f"an int printed with str() is not read back as an int ({why})", f.loc))
     else:
         r.fail("int", Finding("C18.R1", f.fq, "int-form", "ints must be printed with str()", f.loc))
     # float
